@@ -3,8 +3,8 @@
 
   The theorems of `CTM/Props/C06.lean` restated with the acceptance of the
   STORED taxonomy by the model of `validate_taxonomy_tree` as the hypothesis
-  (`t0.validate = .ok ()`, distinct level names, dict keys distinct, a node at
-  the top: see `CTM/Lemmas/BridgeWF.lean`); the tree the run votes on
+  (`t0.validate = .ok ()`, plus the modelling convention `DictOK t0` for Python
+  dict keys: see `CTM/Lemmas/BridgeWF.lean`); the tree the run votes on
   (`runTree t0 cfg`: after `drop_level` / `flatten`) inherits the level loop's
   well-formedness by `Bridge.wfb_runTree`, so no hypothesis on it remains except
   the oracle's (`VoteOK t vote`).
